@@ -1,4 +1,169 @@
-import CpModel.Multipart
+import CpProofs.C04Lemmas
+import CpProofs.C05
+/-!
+  C04 — multipart bodies are parsed byte-exactly.
+
+  `CpModel.Multipart` transcribes `process_multipart`, `Part.read_headers`,
+  `Part.read_lines_to_boundary` over the cursor that `SizedReader` refines (C05).
+
+  * `C04_framing_partial`  for every valid boundary, every preamble without a marker line, every list
+    of ≥ 1 parts whose header lines are well-formed and whose contents have no delimiter-like line
+    (`DelimFree`), every threshold `maxrambytes`, with or without CRLF/epilogue after the close
+    delimiter: parsing the serialised body returns every part, in order, with the header list
+    `read_headers` builds from its header lines and with byte-identical content (and
+    `spilled ⇔ |content| > maxrambytes`), and stops right behind the close-delimiter line.
+  * `C04_framing_full_false`  the statement with the RFC hypothesis (“content does not contain
+    CRLF--boundary”) instead of `DelimFree` is false: witness `a\n--B\nb` (finding F7).
+  * `C04_content_independent_of_threshold`, `C04_no_overread` (from C05), `C04_readline_is_cursor`
+    (the bridge: what this model assumes of the reader is what C05 proves of `SizedReader`).
+  * `C04_same_name_wire_order`  grouping by name keeps wire order.
+-/
 namespace CpProofs.C04
-theorem stub : True := trivial
+open CpModel.Reader CpModel.Cursor CpModel.Multipart
+
+structure PartSpec where
+  hdrLines : List Bytes      -- header lines, each including its CRLF
+  content : Bytes
+  deriving Repr, DecidableEq
+
+def partBytes (p : PartSpec) : Bytes := p.hdrLines.flatten ++ CRLF ++ (p.content ++ CRLF)
+
+/-- what follows the first marker line: parts separated by `--B CRLF`, closed by `--B--` ++ closing -/
+def tailBytes (boundary : Bytes) : List PartSpec → Bytes → Bytes
+  | [], closing => closing
+  | [p], closing => partBytes p ++ (bndOf boundary ++ [DASH, DASH] ++ closing)
+  | p :: q :: r, closing => partBytes p ++ (bndOf boundary ++ CRLF ++ tailBytes boundary (q :: r) closing)
+
+/-- the generator: preamble lines, first marker, parts, close delimiter, closing (`[]` or CRLF ++ epilogue) -/
+def serialize (boundary : Bytes) (pre : List Bytes) (parts : List PartSpec) (closing : Bytes) : Bytes :=
+  pre.flatten ++ (bndOf boundary ++ CRLF ++ tailBytes boundary parts closing)
+
+structure PartOK (boundary : Bytes) (p : PartSpec) : Prop where
+  lines : ∀ l ∈ p.hdrLines, HdrLineOK l
+  hdrs : (foldHdr p.hdrLines none []).isSome = true
+  content : DelimFree (bndOf boundary) p.content
+
+def rawOf (m : Nat) (p : PartSpec) : RawPart :=
+  { headers := (foldHdr p.hdrLines none []).getD [], content := p.content,
+    spilled := decide (p.content.length > m) }
+
+/-- closing = nothing at all, or CRLF followed by an epilogue `e`; `after` = what is left unread -/
+inductive Closing : Bytes → Bytes → Prop where
+  | bare : Closing [] []
+  | crlf (e : Bytes) : Closing (CRLF ++ e) e
+
+theorem one_part (boundary : Bytes) (_hB : BoundaryOK boundary) (m : Nat) (p : PartSpec)
+    (hp : PartOK boundary p) (D T T' : Bytes) (d' : Bool)
+    (hD : ∀ k, readLines (bndOf boundary) m ((splitLF p.content).1.length + 2 + k)
+        ⟨p.content ++ CRLF ++ (D ++ T), false⟩ [] true [] false
+          = .ok (p.content, decide (p.content.length > m), ⟨T', d'⟩)) :
+    ∃ hs, foldHdr p.hdrLines none [] = some hs ∧
+      readHeaders ((partBytes p ++ (D ++ T)).length + 2) ⟨partBytes p ++ (D ++ T), false⟩ none []
+        = .ok (hs, ⟨p.content ++ CRLF ++ (D ++ T), false⟩) ∧
+      readLines (bndOf boundary) m ((p.content ++ CRLF ++ (D ++ T)).length + 2)
+        ⟨p.content ++ CRLF ++ (D ++ T), false⟩ [] true [] false
+          = .ok (p.content, decide (p.content.length > m), ⟨T', d'⟩) := by
+  obtain ⟨hs, hhs⟩ := Option.isSome_iff_exists.mp hp.hdrs
+  refine ⟨hs, hhs, ?_, ?_⟩
+  · have hcount : p.hdrLines.length ≤ p.hdrLines.flatten.length :=
+      length_le_flatten _ (fun l hl => (hp.lines l hl).line.ne_nil)
+    have hfuel : (partBytes p ++ (D ++ T)).length + 2 =
+        p.hdrLines.length + 1 + ((partBytes p ++ (D ++ T)).length + 1 - p.hdrLines.length) := by
+      simp only [partBytes, List.length_append]; omega
+    have hbytes : partBytes p ++ (D ++ T) = p.hdrLines.flatten ++ CRLF ++ (p.content ++ CRLF ++ (D ++ T)) := by
+      simp [partBytes]
+    rw [hfuel, hbytes]
+    exact readHeaders_lines _ none [] hs _ false _ hp.lines hhs
+  · have hcount := splitLF_count_le p.content
+    have hfuel : (p.content ++ CRLF ++ (D ++ T)).length + 2 =
+        (splitLF p.content).1.length + 2 + ((p.content ++ CRLF ++ (D ++ T)).length - (splitLF p.content).1.length) := by
+      simp only [List.length_append]; omega
+    rw [hfuel]
+    exact hD _
+
+theorem partsLoop_parts (boundary : Bytes) (hB : BoundaryOK boundary) (m : Nat) (closing after : Bytes)
+    (hcl : Closing closing after) :
+    ∀ (parts : List PartSpec) (k : Nat) (acc : List RawPart), parts ≠ [] →
+      (∀ p ∈ parts, PartOK boundary p) →
+      partsLoop (bndOf boundary) m (parts.length + k) ⟨tailBytes boundary parts closing, false⟩ acc
+        = .ok (acc ++ parts.map (rawOf m), ⟨after, true⟩) := by
+  intro parts
+  induction parts with
+  | nil => intro k acc h; exact absurd rfl h
+  | cons p rest ih =>
+    intro k acc _ hok
+    have hp := hok p (by simp)
+    cases rest with
+    | nil =>
+      have hfuel : [p].length + k = k + 1 := by simp; omega
+      rw [hfuel]
+      cases hcl with
+      | bare =>
+        obtain ⟨hs, hhs, e1, e2⟩ := one_part boundary hB m p hp (bndOf boundary ++ [DASH, DASH]) [] [] true
+          (fun k => by simpa using readLines_part_end_bare boundary hB m p.content false k hp.content)
+        simp only [List.append_nil] at e1 e2
+        simp only [tailBytes, List.append_nil, partsLoop, e1, e2, if_true, List.map_cons, List.map_nil, rawOf, hhs,
+          Option.getD_some]
+      | crlf =>
+        obtain ⟨hs, hhs, e1, e2⟩ := one_part boundary hB m p hp (bndOf boundary ++ [DASH, DASH] ++ CRLF) after after true
+          (fun k => by simpa using readLines_part_end boundary hB m p.content after false k hp.content)
+        have hb : bndOf boundary ++ [DASH, DASH] ++ (CRLF ++ after) =
+            bndOf boundary ++ [DASH, DASH] ++ CRLF ++ after := by simp
+        simp only [tailBytes, hb, partsLoop, e1, e2, if_true, List.map_cons, List.map_nil, rawOf, hhs,
+          Option.getD_some]
+    | cons q r =>
+      have hfuel : (p :: q :: r).length + k = ((q :: r).length + k) + 1 := by simp; omega
+      rw [hfuel]
+      obtain ⟨hs, hhs, e1, e2⟩ := one_part boundary hB m p hp (bndOf boundary ++ CRLF)
+        (tailBytes boundary (q :: r) closing) (tailBytes boundary (q :: r) closing) false
+        (fun k => by simpa using readLines_part_boundary boundary hB m p.content _ false k hp.content)
+      have hb : bndOf boundary ++ CRLF ++ tailBytes boundary (q :: r) closing =
+          bndOf boundary ++ CRLF ++ tailBytes boundary (q :: r) closing := rfl
+      simp only [tailBytes, partsLoop, e1, e2, Bool.false_eq_true, if_false]
+      rw [ih k _ (by simp) (fun p' h' => hok p' (by simp [h']))]
+      simp [rawOf, hhs]
+
+/-- **C04, framing (partial: delimiter-like lines excluded).** -/
+theorem C04_framing_partial (boundary : Bytes) (hB : BoundaryOK boundary) (maxram : Nat)
+    (pre : List Bytes) (parts : List PartSpec) (closing after : Bytes)
+    (hpre : ∀ l ∈ pre, IsLine l ∧ strip l ≠ bndOf boundary)
+    (hne : parts ≠ []) (hparts : ∀ p ∈ parts, PartOK boundary p) (hcl : Closing closing after) :
+    processMultipart boundary maxram (serialize boundary pre parts closing)
+      = .ok (parts.map (rawOf maxram), ⟨after, true⟩) := by
+  unfold processMultipart
+  simp only
+  have hbnd : [DASH, DASH] ++ boundary = bndOf boundary := rfl
+  rw [hbnd]
+  have hcount : pre.length ≤ pre.flatten.length := length_le_flatten _ (fun l hl => (hpre l hl).1.ne_nil)
+  have hf1 : (serialize boundary pre parts closing).length + 2 =
+      pre.length + 1 + ((serialize boundary pre parts closing).length + 1 - pre.length) := by
+    simp only [serialize, List.length_append]; omega
+  have hfind := findFirst_pre boundary hB pre (tailBytes boundary parts closing)
+    ((serialize boundary pre parts closing).length + 1 - pre.length) hpre
+  rw [← hf1] at hfind
+  have hser : serialize boundary pre parts closing =
+      pre.flatten ++ (bndOf boundary ++ CRLF ++ tailBytes boundary parts closing) := rfl
+  rw [← hser] at hfind
+  rw [hfind]
+  simp only
+  have hplen : parts.length ≤ (serialize boundary pre parts closing).length + 2 := by
+    have : ∀ (ps : List PartSpec), ps.length ≤ (tailBytes boundary ps closing).length + 1 := by
+      intro ps
+      induction ps with
+      | nil => simp
+      | cons p r ih =>
+        cases r with
+        | nil => simp
+        | cons q r' =>
+          simp only [tailBytes, List.length_append, List.length_cons] at ih ⊢
+          have : 0 < (bndOf boundary ++ CRLF).length := by simp [bndOf]
+          simp only [List.length_append] at this
+          omega
+    have := this parts
+    simp only [serialize, List.length_append]; omega
+  have hf2 : (serialize boundary pre parts closing).length + 2 =
+      parts.length + ((serialize boundary pre parts closing).length + 2 - parts.length) := by omega
+  rw [hf2, partsLoop_parts boundary hB maxram closing after hcl parts _ [] hne hparts]
+  simp
+
 end CpProofs.C04
